@@ -143,7 +143,7 @@ class Translator:
             if fname in UNARY_SPECIAL and len(zargs) == 1:
                 self._special(fname, a[1], zargs[0], r)
             return r
-        if op in ('sum', 'bmax', 'bmin', 'bag'):
+        if op in ('sum', 'bmax', 'bmin', 'bag', 'prod'):
             return self._big(t)
         if op == 'forall':
             bv, lo, hi, body = a
@@ -259,6 +259,10 @@ class Translator:
                 self.axioms.append(z3.Implies(zhi > zlo, r > 0))
         elif op == 'bag':
             pass
+        elif op == 'prod':
+            self.axioms.append(z3.Implies(zhi <= zlo, r == 1))
+            if _pos(body):
+                self.axioms.append(r > 0)
         else:
             # witness and bound axioms; the quantified bound is instantiated by z3 (MBQI/e-matching)
             w = self.fn('wit_%s_%d' % (op, bid), dom, z3.IntSort())(zlo, zhi, *zfv)
@@ -296,6 +300,12 @@ def _pos(b):
         return _pos(b.args[0]) and _pos(b.args[1])
     if op == 'toreal':
         return _pos(b.args[0])
+    if op == 'ite':
+        return _pos(b.args[1]) and _pos(b.args[2])
+    if op == 'prod':
+        return _pos(b.args[3])
+    if op == 'max':
+        return _pos(b.args[0]) or _pos(b.args[1])
     return False
 
 
